@@ -81,6 +81,13 @@ def composed (op : String) (a : Args) : Option String :=
       else
         let x ← F32.mkArr a "x"; let w ← F32.mkArr a "w"; let b ← optArr F32.mkArr a "b"
         pure (F32.fmtView (linear (· + ·) (· * ·) x w b))
+  | "bilinear" => do
+      if a.get? "dt" == some "i" then
+        let x ← mkArr a "a"; let y ← mkArr a "b"; let w ← mkArr a "w"; let c ← optArr mkArr a "c"
+        pure (fmtIntView (bilinear (· + ·) (· * ·) x y w c))
+      else
+        let x ← F32.mkArr a "a"; let y ← F32.mkArr a "b"; let w ← F32.mkArr a "w"; let c ← optArr F32.mkArr a "c"
+        pure (F32.fmtView (bilinear (· + ·) (· * ·) x y w c))
   | "pairwise_distance" => do
       let x ← F32.mkArr a "a"; let y ← F32.mkArr a "b"
       let (ord, eps, keep) ← (if (a.get? "form").isSome then some ((2 : Nat), f32eps 1 6, false) else do
@@ -148,7 +155,7 @@ def handle : Handler := fun op a =>
       let x ← F32.mkArr a "x"
       let k ← a.nats "kernel"; let st ← a.nats "stride"; let c ← a.nat "ceil"
       pure (F32.fmtView (avgPool2d (· + ·) (fun s n => s / n.toFloat32) x k st (c != 0)))
-  | "softmax" | "softmin" | "linear" | "pairwise_distance" | "cosine_similarity"
+  | "softmax" | "softmin" | "linear" | "bilinear" | "pairwise_distance" | "cosine_similarity"
   | "batch_norm" | "layer_norm" | "instance_norm" | "group_norm" => orBad (composed op a)
   | _ => none
 
